@@ -450,6 +450,68 @@ func c19Oracle(v *c19Inv, tree cliTree, dirs map[string]bool) (fates map[string]
 
 // ---------- generator ----------
 
+// c19LateFail builds a document whose minification fails only after a prefix that the lexers/minifiers rewrite in
+// place (upper-case tags and attributes, collapsible whitespace, entities, shortenable numbers): the error sits at
+// 30–90 % of the file. On such a file the command must fall back to the ORIGINAL bytes.
+func c19LateFail(rng *h.RNG, ext string) []byte {
+	var head, tail []string
+	n1, n2 := 2+rng.Intn(5), 1+rng.Intn(3)
+	var bad string
+	switch ext {
+	case "html", "htm":
+		for i := 0; i < n1; i++ {
+			head = append(head, fmt.Sprintf("<P CLASS=\"C%d\" >Hello   &amp;   World  %d</P>\n<DIV  TITLE = 'x'>a    b</DIV>", i, rng.Intn(100)))
+		}
+		bad = []string{"<script>var = ;</script>", "<script type=\"module\">import { a from 'x'</script>", "<a onclick=\"var = ;\">x</a>",
+			"<script type=\"application/json\">{ \"a\" : }</script>", "<SCRIPT>if ( ) { }</SCRIPT>"}[rng.Intn(5)]
+		for i := 0; i < n2; i++ {
+			tail = append(tail, fmt.Sprintf("<P>Tail   %d</P>", i))
+		}
+		return []byte("<!DOCTYPE HTML><HTML><BODY>\n" + strings.Join(head, "\n") + bad + strings.Join(tail, "\n") + "</BODY></HTML>\n")
+	case "xml", "svg":
+		open, close := "<root>", "</root>"
+		if ext == "svg" {
+			open, close = "<svg xmlns=\"http://www.w3.org/2000/svg\">", "</svg>"
+		}
+		for i := 0; i < n1; i++ {
+			head = append(head, fmt.Sprintf("  <text  id = \"%d\" >  some   text &amp;  more   %d  </text>", i, rng.Intn(100)))
+		}
+		for i := 0; i < n2; i++ {
+			tail = append(tail, fmt.Sprintf("  <g>  %d  </g>", i))
+		}
+		return []byte(open + "\n" + strings.Join(head, "\n") + "\x00" + strings.Join(tail, "\n") + close + "\n")
+	case "json":
+		for i := 0; i < n1; i++ {
+			head = append(head, fmt.Sprintf(" { \"k\\u0041%d\" : [ %d.50 , 1.0e+2 ] }", i, rng.Intn(100)))
+		}
+		bad = []string{"nul", "{ \"a\" : }", "[ 1 , ]x"}[rng.Intn(3)]
+		for i := 0; i < n2; i++ {
+			tail = append(tail, fmt.Sprintf(" %d", i))
+		}
+		return []byte("[\n" + strings.Join(append(append(head, bad), tail...), " ,\n") + "\n]\n")
+	case "js", "mjs":
+		for i := 0; i < n1; i++ {
+			head = append(head, fmt.Sprintf("if ( x%d ) { g( %d.50 , 'it\\'s' , 0x10 ) ; }", i, rng.Intn(100)))
+		}
+		bad = []string{"var = ;", "if ( ) { }", "let x = `a${ ;"}[rng.Intn(3)]
+		for i := 0; i < n2; i++ {
+			tail = append(tail, fmt.Sprintf("h( %d ) ;", i))
+		}
+		return []byte(strings.Join(head, "\n") + "\n" + bad + "\n" + strings.Join(tail, "\n") + "\n")
+	}
+	return nil
+}
+
+// c19MutatesOnFail measures whether the library, when it reads the document through a bytes.Buffer (the caller's slice),
+// fails AND has rewritten the slice by then — the situation in which handing the caller's slice to the minifier is visible.
+func c19MutatesOnFail(mimetype string, b []byte) bool {
+	buf := append([]byte{}, b...)
+	var w bytes.Buffer
+	var err error
+	crash := h.Safely(30e9, func() { err = cliMinifier().Minify(mimetype, &w, bytes.NewBuffer(buf)) })
+	return crash == "" && err != nil && !bytes.Equal(buf[:len(b)], b)
+}
+
 var c19Exts = []string{"css", "js", "html", "json", "svg", "xml", "txt", "md"}
 
 func c19GenTree(rng *h.RNG) cliTree {
@@ -470,6 +532,8 @@ func c19GenTree(rng *h.RNG) cliTree {
 		p := filepath.Join(d, name)
 		var content []byte
 		switch {
+		case rng.Chance(12) && c19LateFail(rng, ext) != nil:
+			content = c19LateFail(rng, ext) // minifier error after a rewritable prefix
 		case rng.Chance(6) && ext == "js":
 			content = []byte("var = ;\n") // minifier error
 		case rng.Chance(5):
@@ -868,6 +932,28 @@ func init() {
 			}
 			cases[i] = &cliCase{tree: t, inv: inv}
 		}
+		// every media type × every way of writing, on documents that fail late (after in-place rewritable content)
+		for rep := 0; rep < c.N(1, 6); rep++ {
+			for _, ext := range []string{"html", "xml", "svg", "json", "js"} {
+				rng := c.Rng.Fork()
+				x, z := "in/x."+ext, "lib/z."+ext
+				t := cliTree{x: c19LateFail(rng, ext), "in/y." + ext: c20Content(rng, ext, 60+rng.Intn(100)), z: c19LateFail(rng, ext)}
+				for _, inv := range []*c19Inv{
+					{Shape: "late-fail/file-to-stdout", Inputs: []string{x}},
+					{Shape: "late-fail/file-to-file", Inputs: []string{x}, Output: "out/o." + ext},
+					{Shape: "late-fail/file-to-dir", Inputs: []string{x}, Output: "out/"},
+					{Shape: "late-fail/in-place", Inputs: []string{z}, Output: z},
+					{Shape: "late-fail/dir-in-place", Inputs: []string{"in/"}, Output: "in/", Recursive: true},
+					{Shape: "late-fail/dir-to-dir", Inputs: []string{"in", "lib/"}, Output: "out", Recursive: true},
+					{Shape: "late-fail/stdin-to-stdout", UseStdin: true, Type: ext, Stdin: t[x]},
+					{Shape: "late-fail/stdin-to-file", UseStdin: true, Type: ext, Output: "o." + ext, Stdin: t[z]},
+					{Shape: "late-fail/bundle", Inputs: []string{"in/y." + ext, x}, Output: "b." + ext, Bundle: true},
+					{Shape: "late-fail/bundle-onto-input", Inputs: []string{"in/y." + ext, z}, Output: z, Bundle: true},
+				} {
+					cases = append(cases, &cliCase{tree: t, inv: inv})
+				}
+			}
+		}
 		extraDirs := []string{"in", "in/sub", "in/sub/deep", "in/.hid", "lib", "in/a.d"}
 		parallelDo(len(cases), 12, func(i int) {
 			cs := cases[i]
@@ -1023,6 +1109,19 @@ func init() {
 			st.Count(cs.key, !changed || len(cs.run.Stdout) > 0)
 			st.Tag("shape=" + v.Shape)
 			st.Tag(fmt.Sprintf("exit=%d", cs.run.Exit))
+			if strings.HasPrefix(v.Shape, "late-fail/") {
+				probe := v.Stdin
+				if !v.UseStdin {
+					probe = cs.tree[filepath.Clean(v.Inputs[len(v.Inputs)-1])]
+					if probe == nil {
+						probe = cs.tree["in/x"+filepath.Ext(cs.tree.paths()[0])]
+					}
+				}
+				mt := cliExtMap[strings.TrimPrefix(filepath.Ext(cs.tree.paths()[0]), ".")]
+				if c19MutatesOnFail(mt, probe) {
+					st.Tag("late-fail: library rewrites the caller's slice before failing")
+				}
+			}
 			addDiff := func(f h.Finding) {
 				nDiff[f.What[:min(len(f.What), 30)]]++
 				if nDiff[f.What[:min(len(f.What), 30)]] <= 3 {
@@ -1323,6 +1422,7 @@ var c19Regress = []c19Reg{
 		map[string]string{"out/a.css": "a{color:red}"}},
 	{"K-C19-4", []string{"-q", "-o", "$PWD/a.css", "a.css"}, cliTree{"a.css": []byte("a { color : red ; }\n")}, 0,
 		map[string]string{"a.css": "a{color:red}"}},
+	{"K-C19-5", []string{"-b", "--sync", "--exclude=a.txt", "-q", "-o", "b.css", "a.txt", "b.css"}, cliTree{"a.txt": []byte("hello\n"), "b.css": []byte("b { color : blue ; }\n")}, 1, nil},
 	{"write-error-exit", []string{"-q", "-o", "/dev/full", "a.css"}, cliTree{"a.css": []byte("a { color : red ; }\n")}, 1, nil},
 }
 
